@@ -175,6 +175,26 @@ let handle toks = match toks with
             show_res show_list model ^ " ## " ^ spec
           | _ -> failwith "bad uvec")
      | _ -> failwith "bad uvec/upos")
+  | ["saxis"; dt; off; count; start] ->
+    let dt = dec_dbl dt and o = off_of off in
+    let n = oint_of_string count and st = z_of_string start in
+    let xs = OLst.init n (fun i -> x_sampled dt o (zadd st i)) in
+    let r = "OK " ^ count ^ OStr.concat "" (OLst.map (fun x -> " " ^ enc_dbl x) xs) in
+    r ^ " ## " ^ r
+  | ("raxis" | "tickat" as cmd) :: k :: rest ->
+    let k = oint_of_string k in
+    let ticks = OLst.map dec_dbl (take k rest) in
+    (match cmd, drop k rest with
+     | "tickat", [i] ->
+       let i = oint_of_string i in
+       let r = if i >= 0 && i < k then "OK " ^ enc_dbl (OLst.nth ticks i) else "ERR" in
+       (if r = "ERR" then "ERR nix::OutOfBounds" else r) ^ " ## " ^ r
+     | "raxis", [count; start] ->
+       let n = oint_of_string count and st = oint_of_string start in
+       let r = if n >= 0 && st >= 0 && st <= k && n <= k && st + n <= k
+         then "OK " ^ count ^ OStr.concat "" (OLst.map (fun x -> " " ^ enc_dbl x) (take n (drop st ticks))) else "ERR" in
+       (if r = "ERR" then "ERR nix::OutOfBounds" else r) ^ " ## " ^ r
+     | _ -> failwith "bad raxis/tickat")
   | "stale" :: k :: rest ->
     let k = oint_of_string k in
     (match drop k rest with
